@@ -46,21 +46,32 @@ def make_world(g):
     eps = [Double('e%d' % i) for i in range(NE)]
     for e in eps:
         hub.endpoints[e.name] = e
-    sinks = []
-    for i in range(NS):
-        def mk(i):
-            def sink(data):
-                log.append(('sink', i, data))
-            return sink
-        sinks.append(mk(i))
-    sources = []
-    for i in range(NS):
-        def mks(i):
-            def source():
-                log.append(('source', i))
-                return ('value-of-source', i)
-            return source
-        sources.append(mks(i))
+    class Recorder:
+        """sinks and sources are BOUND METHODS: every attribute access creates a new object that is equal (==) to, but
+        not identical with, the one registered earlier -- rule sets are sets up to equality, as `in` decides it"""
+        def __init__(self, i):
+            self.i = i
+
+        def on_msg(self, data):
+            log.append(('sink', self.i, data))
+
+        def produce(self):
+            log.append(('source', self.i))
+            return ('value-of-source', self.i)
+
+    class Fresh:
+        """pool of handles: indexing returns a fresh bound method each time"""
+        def __init__(self, recs, attr):
+            self.recs, self.attr = recs, attr
+
+        def __getitem__(self, i):
+            return getattr(self.recs[i], self.attr)
+
+        def __len__(self):
+            return len(self.recs)
+    recs = [Recorder(i) for i in range(NS)]
+    sinks = Fresh(recs, 'on_msg')
+    sources = Fresh(recs, 'produce')
     return hub, eps, sinks, sources, log
 
 
@@ -72,6 +83,13 @@ def dupfree_lists(pool, maxlen=None):
     return out
 
 
+def key_of(x):
+    """identity of a rule target up to equality: endpoints by object, bound methods by (receiver, function)"""
+    if hasattr(x, '__self__') and hasattr(x, '__func__'):
+        return ('method', id(x.__self__), x.__func__.__name__)
+    return ('object', id(x))
+
+
 def inv_holds(hub, eps):
     for tbl in (hub.forwarding, hub.output_functions, hub.input_functions):
         for k, lst in tbl.items():
@@ -79,7 +97,7 @@ def inv_holds(hub, eps):
                 return False
             for i in range(len(lst)):
                 for j in range(i + 1, len(lst)):
-                    if lst[i] is lst[j]:
+                    if lst[i] == lst[j]:
                         return False
     for lst in hub.forwarding.values():
         if any(all(x is not e for e in eps) for x in lst):
@@ -91,20 +109,20 @@ def view(hub):
     v = set()
     for k, lst in hub.forwarding.items():
         for x in lst:
-            v.add(('fwd', k, id(x)))
+            v.add(('fwd', k, key_of(x)))
     for k, lst in hub.output_functions.items():
         for x in lst:
-            v.add(('sink', k, id(x)))
+            v.add(('sink', k, key_of(x)))
     for k, lst in hub.input_functions.items():
         for x in lst:
-            v.add(('src', k, id(x)))
+            v.add(('src', k, key_of(x)))
     return v
 
 
 def order(hub):
-    return {('fwd', k): [id(x) for x in l] for k, l in hub.forwarding.items()} | \
-           {('sink', k): [id(x) for x in l] for k, l in hub.output_functions.items()} | \
-           {('src', k): [id(x) for x in l] for k, l in hub.input_functions.items()}
+    return {('fwd', k): [key_of(x) for x in l] for k, l in hub.forwarding.items()} | \
+           {('sink', k): [key_of(x) for x in l] for k, l in hub.output_functions.items()} | \
+           {('src', k): [key_of(x) for x in l] for k, l in hub.input_functions.items()}
 
 
 class _Reg(Contract):
@@ -141,6 +159,10 @@ class _Reg(Contract):
                     hub.forwarding['e3'] = [eps[0], eps[2]]
                     hub.output_functions['e3'] = [sinks[1]]
                     hub.input_functions['e3'] = [sources[2], sources[0]]
+                    # ... and the SAME key in the other two tables (a registration must not touch them)
+                    hub.forwarding['e1'] = [eps[2]]
+                    hub.output_functions['e1'] = [sinks[0], sinks[2]]
+                    hub.input_functions['e1'] = [sources[1]]
                     if has_key:
                         tbl['e1'] = [pool[i] for i in perm]
                     else:
@@ -151,7 +173,7 @@ class _Reg(Contract):
                     ret = self.call(hub, 'e1', item, eps)
                     n_cases += 1
                     results.append((has_key, perm, item_i, pre_inv, pre_view, pre_order, ret, view(hub), order(hub),
-                                    inv_holds(hub, eps), id(item), list(log)))
+                                    inv_holds(hub, eps), key_of(item), list(log)))
         # names that are not endpoints, and None handles
         hub, eps, sinks, sources, log = make_world(g)
         pool = self.pool(eps, sinks, sources)
@@ -248,7 +270,7 @@ class Comms_getData(Contract):
         for fw in dupfree_lists(list(range(NE)), 3):
             for sk in dupfree_lists(list(range(NS)), 2):
                 for fw_key in (True, False):
-                    for data in ('payload', None):
+                    for data in ('payload', '', 0, None):
                         hub, eps, sinks, sources, log = make_world(g)
                         if fw_key or fw:
                             hub.forwarding['e1'] = [eps[i] for i in fw]
